@@ -997,6 +997,7 @@ setup_custom_method(kdump_ctx_t *ctx, addrxlat_sys_meth_t methidx,
 		return addrxlat2kdump(ctx, axstatus);
 	}
 	addrxlat_sys_set_map(ctx->xlat->xlatsys, mapidx, map);
+	addrxlat_map_decref(map);
 	addrxlat_sys_set_meth(ctx->xlat->xlatsys, methidx, meth);
 
 	return KDUMP_OK;
